@@ -232,6 +232,14 @@ Definition run (i : input) : val :=
                 enc_ids (everything i); enc_ids []]
   end.
 
+(* compact constructors for the generated cases files (positional, scopes bound by type) *)
+Definition mkf (i : N) (a s : Z) : finfo := {| f_id := i; f_age := a; f_size := s |}.
+Definition mkp (fs : list N) (fe : bool) (ps : list N) : pkg := {| p_files := fs; p_fetch := fe; p_pats := ps |}.
+Definition mki (argv : list tok) (a : list finfo) (r : list pkg) (inst : list (list N))
+               (sel : list N) (tty : bool) : input :=
+  {| i_argv := argv; i_world := {| w_all := a; w_repo := r; w_inst := inst |}; i_sel := sel; i_tty := tty |}.
+Definition res (st : val) (kept printed : list N) : val := VL [st; enc_ids kept; enc_ids printed].
+
 (* stream "qty": parse_time / parse_size alone; fst = false: time, true: size *)
 Definition run_qty (i : bool * str) : val :=
   match parse_qty (if fst i then size_units else time_units) (snd i) with
